@@ -202,3 +202,7 @@ mod tests {
         assert_eq!(pssid2, pssid);
     }
 }
+
+#[cfg(kani)]
+#[path = "/verif/kani/snap_tokens/claims.rs"]
+mod verif_claims;
